@@ -438,7 +438,11 @@ class HtmlToAst(HTMLParser):
         self.struct.nest_terminal(Declaration, decl)
 
     def unknown_decl(self, decl: str):
-        self.struct.nest_terminal(Declaration, decl)
+        # called for marked sections, with the text between ``<![`` and the
+        # terminator: ``]>`` for ``<![if x]>`` etc, otherwise ``]]>`` (``<![CDATA[x]]>``)
+        keyword = decl.split("[", 1)[0].strip().lower()
+        double = keyword in {"temp", "cdata", "ignore", "include", "rcdata"}
+        self.struct.nest_terminal(Declaration, f"[{decl}{']]' if double else ']'}")
 
     def handle_charref(self, data: str):
         self.struct.nest_terminal(Char, data)
